@@ -2131,13 +2131,13 @@ func optDirected() []string {
 		"opt e23 message 1 3 n:features x:s.feat n:f3 { }",
 		"opt e23 message 2 3 n:features x:s.feat n:f3 { } 1 x:s.me_i32 u:1",
 		"opt e23 field:i32:o 1 3 n:features x:s.feat n:f3 { }",
-		// panics
+		// former panics (fixed in /repo 47c63915, 28d6433e): now diagnostics
 		"opt p2 file 1 1 x:s.fi_m1 { x:s.x100 : u:1 }",
 		"opt p2 file 1 1 x:s.fi_m1 { n:f1 : u:1 x:s.x102 : [ s:61 ] }",
 		"opt p2 file 1 1 x:s.fi_m0 { n:F1 : u:1 }",
 		"opt p2 file 1 1 x:s.fi_m0 { n:F18 : { } }",
 		"opt p2 file 1 1 x:s.fi_m0 { n:G26 _ { } n:g26 _ { } n:G25 : { } }",
-		// multi-part pseudo-option names on a field
+		// multi-part pseudo-option names on a field (fixed in /repo 3b5d7843: rejected)
 		"opt p2 field:i32:o 1 2 n:default n:foo u:1",
 		"opt p2 field:i32:o 2 2 n:json_name n:x s:61 1 n:deprecated id:true",
 	}
